@@ -143,8 +143,15 @@ def array_case(ctx, rnd, where):
         order = list(range(n))
         rnd.shuffle(order)
         done = set()
+        # with an explicitly named rank variable, a scheduler-provided index variable may be present as well (elements
+        # packed several per cloud array child): the named variable identifies the element
+        decoy = rnd.choice([AWS_ARRAY_VAR, K8S_ARRAY_VAR, GCP_ARRAY_VAR]) if var == "VERIF_CUSTOM_INDEX" and rnd.random() < 0.6 else None
         for i in order:
-            run_oneshot(argv, {var: str(i)}, False)
+            env_i = {var: str(i)}
+            if decoy:
+                env_i[decoy] = str((i + 1 + rnd.randrange(max(n - 1, 1))) % n if n > 1 else 0)
+                ctx.count("array_elements_with_decoy_index_variable")
+            run_oneshot(argv, env_i, False)
             done.add(i)
             ctx.ev()
             ctx.count("array_elements")
